@@ -112,7 +112,7 @@ def pick_level(rng):
 def w_levels(ctx, rng, i):
     sps = pick_sps(rng, i, ctx.tier)
     T.gv(sps=sps, R=float(10 ** rng.uniform(6, 10.5)))
-    n = core.long_or(rng, i, int(rng.choice([1, 2, 3, 8, 33, 200])), longs=(5000, 20011, 70001), every=64)   # long bit records (x sps samples)
+    n = core.long_or(rng, i, int(rng.choice([1, 2, 3, 8, 33, 200])), longs=(5000, 20011, 70001), every=64, huge=False)   # long bit records (x sps samples)
     b = rng.integers(0, 2, n)
     if i % 5 == 0:
         b[:] = i // 5 % 2
